@@ -130,6 +130,27 @@ static Level fam_macroloops() {
               } }};
 }
 
+// "semantic ladder": deterministic one-parameter families that grow one dimension at a time (number of variables and
+// leaked temporaries, loop nesting, call depth, parameters, labels, included files, nested arguments, macro nesting);
+// every rung n = 1..N is run, all in one-statement-per-line layout
+static Level fam_semladder(int N) {
+  return {"semantic ladder n=1.." + std::to_string(N), [=](const CB &cb) {
+            auto S = [](int i) { return std::to_string(i); };
+            std::string add = "PROGRAM add IN a, b OUT r DO\n  r := a;\n  LOOP b DO\n    r := r + 1\n  END\nEND\n";
+            for (int n = 1; n <= N; n++) {
+              { std::string m = add; for (int i = 1; i <= n; i++) m += "v" + S(i) + " := " + (i == 1 ? std::string("1") : "v" + S(i - 1) + " + 1") + ";\n";
+                m += "w := RUN add WITH RUN add WITH v" + S(n) + ", 1 END, v1 END;\nu := RUN add WITH w, v" + S(n) + " END;\nt := u - 1\n"; cb(single(m)); }
+              if (n <= 8) { std::string m = "c := 2;\n"; for (int i = 0; i < n; i++) m += std::string(2 * i, ' ') + "LOOP c DO\n"; m += std::string(2 * n, ' ') + "s := s + 1\n"; for (int i = n; i-- > 0;) m += std::string(2 * i, ' ') + "END" + (i ? "\n" : ";\n"); m += "r := s\n"; cb(single(m)); }
+              { std::string m = "PROGRAM f0 IN a DO\n  x0 := a\nEND\n"; for (int i = 1; i <= n; i++) m += "PROGRAM f" + S(i) + " IN a DO\n  x0 := RUN f" + S(i - 1) + " WITH a END;\n  x0 := x0 + 1\nEND\n"; m += "r := RUN f" + S(n) + " WITH 3 END\n"; cb(single(m)); }
+              if (n <= 16) { std::string h = "PROGRAM g IN a1"; for (int i = 2; i <= n; i++) h += ", a" + S(i); h += " OUT r DO\n  r := a1"; for (int i = 2; i <= n; i++) h += ";\n  LOOP a" + S(i) + " DO\n    r := r + 1\n  END"; h += "\nEND\n"; std::string c = "r := RUN g WITH 1"; for (int i = 2; i <= n; i++) c += ", " + S(i % 3); cb(single(h + c + " END\n")); }
+              { std::string m = "GOTO l1;\n"; for (int i = n; i >= 1; i--) m += "l" + S(i) + ": y := y + 1;\nGOTO " + (i == n ? std::string("fin") : "l" + S(i + 1)) + ";\n"; m += "fin: z := y\n"; cb(single(m)); }
+              { Case c; c.main = "main"; c.files["p0"] = "PROGRAM q0 IN a DO\n  x0 := a + 2\nEND\n"; for (int i = 1; i <= n; i++) c.files["p" + S(i)] = "INCLUDE \"p" + S(i - 1) + "\"\nPROGRAM q" + S(i) + " IN a DO\n  x0 := RUN q" + S(i - 1) + " WITH a END\nEND\n"; c.files["main"] = "INCLUDE \"p" + S(n) + "\"\nr := RUN q" + S(n) + " WITH 1 END\n"; cb(c); }
+              { std::string e = "x1"; for (int i = 0; i < n; i++) e = "RUN inc WITH " + e + " END"; cb(single("PROGRAM inc IN a DO\n  x0 := a + 1\nEND\nx1 := 4;\nr := " + e + "\n")); }
+              if (n <= 5) { std::string lib = "DEFINE IF <V> THEN <P> ELSE <P> END AS\n  #0 := 0;\n  #1 := 1;\n  #2 := $0;\n  LOOP #2 DO\n    #0 := 1;\n    #1 := 0\n  END;\n  LOOP #0 DO $1 END;\n  LOOP #1 DO $2 END\nENDDEF\n";
+                std::string e = "r := r + 1"; for (int i = 0; i < n; i++) e = "IF " + std::string(i % 2 ? "x0" : "x1") + " THEN " + e + " ELSE r := r + " + S(i + 2) + " END"; Case c; c.main = "main"; c.files["lib"] = lib; c.files["main"] = "INCLUDE \"lib\"\nx1 := 1;\n" + e + "\n"; cb(c); }
+            } }};
+}
+
 // C20: values near 2^31
 static Level fam_bigvalues(int maxnodes) {
   return {"big-values<=" + std::to_string(maxnodes), [=](const CB &cb) {
@@ -172,19 +193,19 @@ int main(int argc, char **argv) {
   std::vector<int> shapesQ = {0, 1, 2, 4, 6, 7, 11, 15}, shapesAll = all_shapes(), shapesR = {1, 4, 8, 11, 12};
   if (P == "C01") {
     o = orc::oracle_C01;
-    L = {fam_FA(3, 2, true), fam_FB(3, 2), fam_FC(2, shapesQ, 1, false, false, 0, "(<=2 defs of 8 shapes, main 1 node)"), fam_FC(1, shapesAll, 2, true, false, 2, "(1 def of 16 shapes, main<=2 nodes, rich args, both file layouts)"), fam_FC(2, shapesQ, 1, true, false, 0, "(<=2 defs of 8 shapes, main 1 node, rich args incl. nested calls)"), fam_FD(5, 1, 6), fam_FA(3, 2, true, true), fam_FC(3, shapesR, 1, false, false, 0, "(<=3 defs of 5 shapes incl. redefinition with another layout, main 1 node)"), fam_FA(4, 2, true), fam_FA(4, 2, true, true)};
+    L = {fam_FA(3, 2, true), fam_semladder(T ? 40 : 24), fam_FB(3, 2), fam_FC(2, shapesQ, 1, false, false, 0, "(<=2 defs of 8 shapes, main 1 node)"), fam_FC(1, shapesAll, 2, true, false, 2, "(1 def of 16 shapes, main<=2 nodes, rich args, both file layouts)"), fam_FC(2, shapesQ, 1, true, false, 0, "(<=2 defs of 8 shapes, main 1 node, rich args incl. nested calls)"), fam_FD(5, 1, 6), fam_FA(3, 2, true, true), fam_FC(3, shapesR, 1, false, false, 0, "(<=3 defs of 5 shapes incl. redefinition with another layout, main 1 node)"), fam_FA(4, 2, true), fam_FA(4, 2, true, true)};
     if (T) { L.push_back(fam_FB(4, 2)); L.push_back(fam_FC(2, shapesAll, 2, false, false, 0, "(<=2 defs of 16 shapes, main<=2 nodes)")); L.push_back(fam_FD(8, 2, 8)); L.push_back(fam_FC(3, shapesQ, 1, false, false, 0, "(<=3 defs of 8 shapes, main 1 node)")); L.push_back(fam_FA(5, 2, false)); L.push_back(fam_FA(5, 2, false, true)); }
   } else if (P == "C03") {
     o = orc::oracle_C03;
-    L = {fam_unusual(), fam_FA(3, 2, true), fam_FB(3, 2), fam_FC(2, shapesQ, 1, false, false, 0, "(<=2 defs of 8 shapes, main 1 node)"), fam_FC(1, shapesAll, 2, true, false, 2, "(1 def of 16 shapes, main<=2 nodes, rich args, both file layouts)"), fam_FC(2, shapesQ, 1, true, false, 0, "(<=2 defs of 8 shapes, main 1 node, rich args incl. nested calls)"), fam_FC(3, shapesR, 1, false, false, 0, "(<=3 defs of 5 shapes incl. redefinition with another layout, main 1 node)"), fam_FD(5, 1, 6)};
+    L = {fam_unusual(), fam_semladder(T ? 40 : 24), fam_FA(3, 2, true), fam_FB(3, 2), fam_FC(2, shapesQ, 1, false, false, 0, "(<=2 defs of 8 shapes, main 1 node)"), fam_FC(1, shapesAll, 2, true, false, 2, "(1 def of 16 shapes, main<=2 nodes, rich args, both file layouts)"), fam_FC(2, shapesQ, 1, true, false, 0, "(<=2 defs of 8 shapes, main 1 node, rich args incl. nested calls)"), fam_FC(3, shapesR, 1, false, false, 0, "(<=3 defs of 5 shapes incl. redefinition with another layout, main 1 node)"), fam_FD(5, 1, 6)};
     if (T) { L.push_back(fam_FA(4, 2, true)); L.push_back(fam_FB(4, 2)); L.push_back(fam_FC(2, shapesAll, 2, false, false, 0, "(<=2 defs of 16 shapes, main<=2 nodes)")); L.push_back(fam_FC(3, shapesQ, 1, false, false, 0, "(<=3 defs of 8 shapes, main 1 node)")); L.push_back(fam_FD(8, 2, 8)); }
   } else if (P == "C07") {
     o = [](orc::An &a, vf::Stats &st) { orc::oracle_C07(a, st); };
-    L = {fam_FA(3, 2, true), fam_FB(3, 2), fam_FC(2, shapesQ, 1, false, false, 2, "(<=2 defs of 8 shapes, main 1 node, both file layouts)"), fam_FC(1, shapesAll, 2, true, false, 2, "(1 def of 16 shapes, main<=2 nodes, rich args, both file layouts)"), fam_FC(2, shapesQ, 1, true, false, 0, "(<=2 defs of 8 shapes, main 1 node, rich args incl. nested calls)"), fam_FA(4, 2, true)};
+    L = {fam_FA(3, 2, true), fam_semladder(T ? 40 : 24), fam_FC(3, shapesR, 1, false, false, 2, "(<=3 defs of 5 shapes incl. redefinition with another layout, main 1 node, both file layouts)"), fam_FB(3, 2), fam_FC(2, shapesQ, 1, false, false, 2, "(<=2 defs of 8 shapes, main 1 node, both file layouts)"), fam_FC(1, shapesAll, 2, true, false, 2, "(1 def of 16 shapes, main<=2 nodes, rich args, both file layouts)"), fam_FC(2, shapesQ, 1, true, false, 0, "(<=2 defs of 8 shapes, main 1 node, rich args incl. nested calls)"), fam_FA(4, 2, true)};
     if (T) { L.push_back(fam_FB(4, 2)); L.push_back(fam_FC(2, shapesAll, 2, false, false, 2, "(<=2 defs of 16 shapes, main<=2 nodes, both file layouts)")); L.push_back(fam_FC(3, shapesQ, 1, false, false, 2, "(<=3 defs of 8 shapes, main 1 node, both file layouts)")); L.push_back(fam_FA(5, 2, false)); }
   } else if (P == "C08") {
     o = orc::oracle_C08;
-    L = {fam_FD(8, 1, 8), fam_FA(3, 2, true), fam_FB(3, 2), fam_FC(2, shapesQ, 1, false, false, 2, "(<=2 defs of 8 shapes, main 1 node, both file layouts)"), fam_FA(3, 2, true, true)};
+    L = {fam_FD(8, 1, 8), fam_semladder(T ? 40 : 24), fam_FA(3, 2, true), fam_FB(3, 2), fam_FC(2, shapesQ, 1, false, false, 2, "(<=2 defs of 8 shapes, main 1 node, both file layouts)"), fam_FA(3, 2, true, true)};
     if (T) { L.push_back(fam_FD(8, 2, 10)); L.push_back(fam_FA(4, 2, true)); L.push_back(fam_FB(4, 2)); L.push_back(fam_FC(2, shapesAll, 2, false, false, 2, "(<=2 defs of 16 shapes, main<=2 nodes, both file layouts)")); }
   } else if (P == "C16") {
     o = orc::oracle_C16;
@@ -192,7 +213,7 @@ int main(int argc, char **argv) {
     if (T) { L.push_back(fam_FA(4, 2, true)); L.push_back(fam_FC(3, shapesQ, 1, false, false, 0, "(<=3 defs of 8 shapes, main 1 node)")); L.push_back(fam_FC(2, shapesAll, 2, false, false, 2, "(<=2 defs of 16 shapes, main<=2 nodes, both file layouts)")); }
   } else if (P == "C19") {
     o = orc::oracle_C19;
-    L = {fam_FC(2, shapesQ, 1, false, false, 0, "(<=2 defs of 8 shapes, main 1 node)"), fam_FC(1, shapesAll, 2, true, false, 0, "(1 def of 16 shapes, main<=2 nodes, rich args)"), fam_callshapes(2), fam_unusual(), fam_FA(3, 2, true)};
+    L = {fam_FC(2, shapesQ, 1, false, false, 0, "(<=2 defs of 8 shapes, main 1 node)"), fam_semladder(T ? 40 : 24), fam_FC(1, shapesAll, 2, true, false, 0, "(1 def of 16 shapes, main<=2 nodes, rich args)"), fam_callshapes(2), fam_unusual(), fam_FA(3, 2, true)};
     if (T) { L.push_back(fam_FC(2, shapesAll, 2, false, false, 0, "(<=2 defs of 16 shapes, main<=2 nodes)")); L.push_back(fam_FC(3, shapesQ, 1, false, false, 0, "(<=3 defs of 8 shapes, main 1 node)")); L.push_back(fam_callshapes(3)); L.push_back(fam_FD(8, 1, 8)); }
   } else if (P == "C20") {
     o = orc::oracle_C20;
